@@ -41,12 +41,23 @@ impl Vm {
     fiber.push(error_message);
 
     let mode = ExecutionMode::CallingNativeCode(self.fiber.frames().len());
+    #[cfg(feature = "verif")]
+    self.verif_exc_event("nenter", self.fiber.frames().len() as i64);
     let result = match self.resolve_call(val!(error), 1) {
       ExecutionSignal::Ok => self.execute(mode),
       ExecutionSignal::OkReturn => ExecutionResult::Ok(self.fiber.pop()),
       ExecutionSignal::RuntimeError => ExecutionResult::RuntimeError,
       _ => self.internal_error("Unexpected signal in run_fun."),
     };
+    #[cfg(feature = "verif")]
+    self.verif_exc_exit(
+      self.fiber.frames().len() as i64,
+      match result {
+        ExecutionResult::Ok(_) => "ok",
+        ExecutionResult::RuntimeError => "err",
+        _ => "exit",
+      },
+    );
 
     match result {
       ExecutionResult::Ok(error) => {
@@ -73,18 +84,29 @@ impl Vm {
       ExecutionMode::CallingNativeCode(depth) => Some(depth),
     };
 
+    #[cfg(feature = "verif")]
+    self.verif_exc_event("usearch", bottom_frame.unwrap_or(0) as i64);
+
     let mut fiber = self.fiber;
     match fiber.stack_unwind(self, bottom_frame) {
       UnwindResult::PotentiallyHandled(frame) => {
+        #[cfg(feature = "verif")]
+        self.verif_exc_event("uto", self.fiber.verif_handler_frame() as i64);
         self.current_fun = frame.fun();
         self.ip = frame.ip();
         None
       },
       UnwindResult::Unhandled => {
+        #[cfg(feature = "verif")]
+        self.verif_exc_event("unhandled", -1);
         self.print_error(error);
         Some(ExecutionResult::RuntimeError)
       },
-      UnwindResult::UnwindStopped => Some(ExecutionResult::RuntimeError),
+      UnwindResult::UnwindStopped => {
+        #[cfg(feature = "verif")]
+        self.verif_exc_event("ustop", -1);
+        Some(ExecutionResult::RuntimeError)
+      },
     }
   }}
 
